@@ -1,27 +1,32 @@
 import Driver.Util
 import Driver.Codec
+import Driver.Srv
 /-
 Line-protocol driver: one operation per input line, one model answer per output line.
 Unknown or unparsable operations answer `bad-op` (never a default).
 -/
 open Driver
 
-def dispatch (line : String) : String :=
+def dispatch (st : DState) (line : String) : DState × String :=
   match (line.trimAscii.toString.splitOn " ").filter (· ≠ "") with
-  | [] => "bad-op"
+  | [] => (st, "bad-op")
   | cmd :: rest =>
     let a := parseArgs rest
     match codecCmd cmd a with
-    | some s => s
-    | none => "bad-op"
+    | some s => (st, s)
+    | none =>
+      match srvCmd st cmd a with
+      | some r => r
+      | none => (st, "bad-op")
 
-partial def loop (h : IO.FS.Stream) (out : IO.FS.Stream) : IO Unit := do
+partial def loop (h : IO.FS.Stream) (out : IO.FS.Stream) (st : DState) : IO Unit := do
   let line ← h.getLine
   if line.isEmpty then return ()
-  out.putStrLn (dispatch line)
-  loop h out
+  let (st', ans) := dispatch st line
+  out.putStrLn ans
+  loop h out st'
 
 def main : IO Unit := do
   let out ← IO.getStdout
-  loop (← IO.getStdin) out
+  loop (← IO.getStdin) out {}
   out.flush
